@@ -5,8 +5,9 @@
                     flat pseudo-sample and the two masks are the bin's values        (C05_source_shift_sex)
   calculate_gc_lo   the whole function; the eight `subseq.count(<letter>)` are opaque integer inputs   (C05_source_gc_lo)
 
-bias_correct_logr / load_sample_block / summarize_info are table code (pandas, file reading, apply_along_axis): left to
-the hand-written model and the correspondence check."""
+bias_correct_logr / load_sample_block / summarize_info were left to the hand-written model and the correspondence check
+in this first batch; the second batch (tools/fnspecs/reference_loops.py) ties their dispatch code, loop iterations and
+per-bin / per-column code."""
 MODULES = {
     'FnReference': ('cnvlib/reference.py', [
         dict(name='shift_sex_chroms', coq='fn_shift_sex',
